@@ -332,9 +332,10 @@ type liveRun struct {
 	ent      map[int]*entState
 	S        int
 	zvals    map[int]map[int]bool // zero-initialised variables: possible current values
+	prLen    map[int]int          // print length of each type's instances at first observation
 	nLo, nHi map[int]int
 	instUp   bool
-	refsUp   map[string]bool // label -> captured
+	refsUp   map[string]bool        // label -> captured
 	hostFV   map[int]goatlang.Value // function values the HOST fetched with Get before reloads
 	poisoned bool
 	loads    []*activeLoad
@@ -364,7 +365,7 @@ func (live) Execute(plan any, keep bool) *core.Result {
 	disk := core.NewSimDisk(files, hist)
 	disk.Rich, disk.Chunk, disk.Mute = p.Rich, p.Chunk, !keep
 	run := &liveRun{p: p, w: w, res: res, table: w.lineTable(), infra: map[string]bool{}, ent: map[int]*entState{},
-		zvals: map[int]map[int]bool{}, nLo: map[int]int{}, nHi: map[int]int{}, refsUp: map[string]bool{}, seen: map[string]int{}, hostFV: map[int]goatlang.Value{}}
+		zvals: map[int]map[int]bool{}, prLen: map[int]int{}, nLo: map[int]int{}, nHi: map[int]int{}, refsUp: map[string]bool{}, seen: map[string]int{}, hostFV: map[int]goatlang.Value{}}
 	for pk := range w.Pkgs {
 		for _, h := range w.entHeader(pk) {
 			run.infra[h] = true
@@ -945,6 +946,16 @@ func (run *liveRun) obs(kind string, id int, val goatlang.Value) {
 	case "st":
 		if v != run.S {
 			run.fail("C17/keep", "state-var", "package variable S declared without initialiser holds %d, the script assigned it %d times", v, run.S)
+		}
+	case "pr":
+		if first, ok := run.prLen[id]; !ok {
+			run.prLen[id] = v
+		} else if first != v {
+			what := "a fresh instance"
+			if id > 100 {
+				what = "the instance created before the reloads"
+			}
+			run.fail("C17/keep", "print-shape", "fmt.Sprint of %s of type T%d (declared in a file that never changes) is %d bytes long, it was %d bytes at its first observation", what, id%100, v, first)
 		}
 	case "fa":
 		if v != 10+id {
